@@ -2,3 +2,4 @@
 pub mod round;
 pub mod esr;
 pub mod mnemonic;
+pub mod units;
